@@ -1320,12 +1320,17 @@ def compile_match_expression(compiler, expr, root, subject, clauses):
         if guard and body == Keyword("as"):
             compiler._syntax_error(body, ":as clause cannot come after :if guard")
 
+        # Compile the pattern before the body, in source order: the
+        # body can change what a name means for the scope (`defn` or
+        # `import` of a `let`-bound name), and a capture in the
+        # pattern comes first.
+        pattern_form = pattern[0]
+        pattern = compile_pattern(compiler, pattern)
+
         body = compiler._compile_branch([body])
-        body += asty.Assign(pattern[0], targets=[return_var], value=body.force_expr)
+        body += asty.Assign(pattern_form, targets=[return_var], value=body.force_expr)
         body += body.expr_as_stmt()
         body = body.stmts
-
-        pattern = compile_pattern(compiler, pattern)
 
         if guard:
             guard = compiler.compile(guard)
